@@ -1,5 +1,6 @@
 //! Per-property program generators and oracle sets (DESIGN §6).
 
+use std::collections::BTreeMap;
 use crate::engine::{Finding, InterestFn, Job, OracleFn};
 use crate::model::*;
 use crate::oracle::*;
@@ -159,14 +160,23 @@ pub fn c03(tier: &str, flavor: Flavor) -> Spec {
         for &ph in phases {
             for &iv in intervals {
                 for neighbour in 0..4 {
-                    let mut variants: Vec<Option<(u64, u64)>> = vec![None];
+                    // (instant, new TTL, preceded by remove(1))
+                    let mut variants: Vec<Option<(u64, u64, bool)>> = vec![None];
                     for &r in &reins_at {
                         for d2 in d2s {
-                            variants.push(Some((r, d2.unwrap())));
+                            variants.push(Some((r, d2.unwrap(), false)));
                         }
                     }
                     if quick && neighbour > 0 {
                         variants.truncate(4);
+                    }
+                    if neighbour == 0 {
+                        // the key is removed (also while expired but not yet swept) and inserted again
+                        for &r in &reins_at {
+                            for d2 in d2s {
+                                variants.push(Some((r, d2.unwrap(), true)));
+                            }
+                        }
                     }
                     for reins in variants {
                         let cfg = Cfg { cleanup_ms: iv, phase_ms: ph, ..Cfg::default() };
@@ -194,7 +204,7 @@ pub fn c03(tier: &str, flavor: Flavor) -> Spec {
                             events.push((tt, 0));
                             tt += 250_000_000;
                         }
-                        if let Some((r, d2)) = reins {
+                        if let Some((r, d2, _)) = reins {
                             events.push((r * 1_000_000, 1));
                             if r * 1_000_000 < deadline || true {
                                 deadline = if d2 == 0 { u64::MAX } else { r * 1_000_000 + d2 * 1_000_000 };
@@ -219,7 +229,10 @@ pub fn c03(tier: &str, flavor: Flavor) -> Spec {
                                 now = at;
                             }
                             if kind == 1 {
-                                let (_, d2) = reins.unwrap();
+                                let (_, d2, rem_first) = reins.unwrap();
+                                if rem_first {
+                                    ops.push(Op::Rem { k: 1 });
+                                }
                                 ops.push(ins(1, 1, d2));
                             }
                             probe(&mut ops);
@@ -249,7 +262,7 @@ pub fn c03(tier: &str, flavor: Flavor) -> Spec {
         jobs,
         oracle: o_c03,
         interesting: |_, t| has_expiry(t) || t.recs.iter().any(|r| matches!(r.res, Res::Ttl(Some(x)) if x != u128::MAX)),
-        rule: "scripted time lines: TTL in {0.3,1,1.5,2.5 s,1 h} x clock phase {0,0.35,0.95 s} x cleanup interval {0.5,2 s} x neighbour key sharing the expiry second {absent,inserted,updated,removed} x optional re-insert (at 0.25..2 s, with TTL none/0.5 s/2 s); get + get_ttl + ValueRef::ttl probed every 250 ms and at deadline-1ns / deadline / deadline+1ns until deadline + 3 s, quiescence after every step, all select/scheduling choices at bound 0; exact comparison with reference deadlines".into(),
+        rule: "scripted time lines: TTL in {0.3,1,1.5,2.5 s,1 h} x clock phase {0,0.35,0.95 s} x cleanup interval {0.5,2 s} x neighbour key sharing the expiry second {absent,inserted,updated,removed} x optional re-insert (at 0.25..2 s, with TTL none/0.5 s/2 s, directly or after a remove of the key); get + get_ttl + ValueRef::ttl probed every 250 ms and at deadline-1ns / deadline / deadline+1ns until deadline + 3 s, quiescence after every step, all select/scheduling choices at bound 0; exact comparison with reference deadlines".into(),
         assumptions: COMMON_ASSUMPTIONS.iter().map(|s| s.to_string()).collect(),
     }
 }
@@ -866,7 +879,7 @@ pub fn c08(tier: &str, flavor: Flavor) -> Spec {
 
 fn o_c02(p: &Program, t: &Trace) -> Vec<Finding> {
     let mut v = o_lookup(p, t);
-    if is_settled(p) && p.cfg.max_cost >= 100 {
+    if is_settled(p) && p.cfg.max_cost >= 100 && p.cfg.keymode == KeyMode::Transparent {
         v.extend(o_map(p, t));
     }
     v
@@ -958,13 +971,21 @@ pub fn c02(tier: &str, flavor: Flavor) -> Spec {
     ] {
         jobs.push(job(conc(&cfg, flavor, &setup, threads), &[2], "c02-named"));
     }
+    // two keys sharing an index hash ("never a value of another key"), with TTLs and idle time:
+    // an expired entry that has not been swept yet still keeps the other key out of its slot
+    {
+        let ccfg = Cfg { keymode: KeyMode::Collide { m: 2 }, ..Cfg::default() };
+        for ops in expiring_collide_histories(quick) {
+            jobs.push(job(single(&ccfg, flavor, settled(&ops)), &[0], "c02-colliding-expiring"));
+        }
+    }
     Spec {
         id: "C02",
         jobs,
         oracle: o_c02,
         interesting: |_, t| t.recs.iter().any(|r| matches!(r.res, Res::Val(Some(_)))),
         rule: format!(
-            "keys 1 and 257 (same shard). E-seq: every history of depth {} over 13 symbols (I(k), I(k,1s), M(k), R(k), G(k), X, A(1s), S) containing a lookup, at max_cost 100 and 1 (forced evictions); every fully settled history of depth {} with exact-map comparison; E-conc: two writer threads x bodies of <= {} operations from {{I(1), I(257), M(1), R(1), X}} + a reader doing two lookups, 2 pre-states, preemption bound {}; 4 named programs at bound 2; oracle on the recorded call/return history (value provenance, staleness after remove/clear + quiescence, no roll-back of in-place writes); non-trivial = a lookup returned a value",
+            "keys 1 and 257 (same shard). E-seq: every history of depth {} over 13 symbols (I(k), I(k,1s), M(k), R(k), G(k), X, A(1s), S) containing a lookup, at max_cost 100 and 1 (forced evictions); every fully settled history of depth {} with exact-map comparison; E-conc: two writer threads x bodies of <= {} operations from {{I(1), I(257), M(1), R(1), X}} + a reader doing two lookups, 2 pre-states, preemption bound {}; 4 named programs at bound 2; settled histories on two keys forced onto one index hash with TTLs and idle time (expired, unswept owner); oracle on the recorded call/return history (value provenance, staleness after remove/clear + quiescence, no roll-back of in-place writes); non-trivial = a lookup returned a value",
             if quick { 4 } else { 5 },
             if quick { 3 } else { 4 },
             if quick { 1 } else { 2 },
@@ -1141,13 +1162,15 @@ pub fn c11(tier: &str, flavor: Flavor) -> Spec {
             }
         }
     }
+    // every metrics stripe restarts from zero
+    jobs.extend(stripe_jobs(flavor, "c11-stripes"));
     Spec {
         id: "C11",
         jobs,
         oracle: o_c11,
         interesting: |_, t| t.recs.iter().any(|r| r.op == Op::Clear && r.res == Res::Unit) && t.recs.iter().any(|r| ok_write(r)),
         rule: format!(
-            "E-seq: [every prefix of <= {} operations over {{I(k,none/1s/3s), R(k), G(k)}} k in 1..2] X [5 suffixes re-using the keys with another TTL / none, idling 3.5 s, looking again], not settled around X, preemption bound {}, with and without metrics; the same prefixes with settled suffixes under the exact-map oracle; E-conc: client A bodies of <= 2 operations from {{I(1), I(2,1s), R(1), G(1)}} against B in {{X, X;I(1,1s), X;G(1)}} x 2 pre-states at bound 2; oracle: nothing inserted before the clear() call is resident/retrievable after it returned + quiescence, len/used/metrics zero unless something was inserted afterwards, fresh-cache behaviour for re-used keys; non-trivial = a successful write and a clear happened",
+            "E-seq: [every prefix of <= {} operations over {{I(k,none/1s/3s), R(k), G(k)}} k in 1..2] X [5 suffixes re-using the keys with another TTL / none, idling 3.5 s, looking again], not settled around X, preemption bound {}, with and without metrics; the same prefixes with settled suffixes under the exact-map oracle; E-conc: client A bodies of <= 2 operations from {{I(1), I(2,1s), R(1), G(1)}} against B in {{X, X;I(1,1s), X;G(1)}} x 2 pre-states at bound 2; one settled history through a clear per metrics stripe (keys 25..49); oracle: nothing inserted before the clear() call is resident/retrievable after it returned + quiescence, len/used/metrics zero unless something was inserted afterwards, fresh-cache behaviour for re-used keys; non-trivial = a successful write and a clear happened",
             if quick { 2 } else { 3 },
             if quick { 1 } else { 2 }
         ),
@@ -1301,17 +1324,96 @@ pub fn c17(tier: &str, flavor: Flavor) -> Spec {
             }
         }
     }
+    // a clear() racing another client's writes: the counters restart exactly where policy and
+    // store are wiped, so the conservation laws hold at the next quiescent point
+    for setup in [vec![], vec![ins(1, 1, 0), ins(2, 1, 0)]] {
+        for a in [vec![Op::Clear], vec![Op::Clear, ins(3, 1, 0)], vec![ins(3, 1, 0), Op::Clear]] {
+            for b in &bs {
+                jobs.push(job(conc(&cfg, flavor, &setup, vec![a.clone(), b.clone()]), &[2], "c17-conc-clear"));
+            }
+        }
+    }
     jobs.extend(popular_jobs(flavor, true, quick, "c17-popular"));
+    jobs.extend(stripe_jobs(flavor, "c17-stripes"));
     Spec {
         id: "C17",
         jobs,
         oracle: o_c17,
         interesting: |_, t| t.snaps.last().and_then(|s| s.metrics.as_ref()).map(|m| m.keys_added > 0 || m.hits > 0).unwrap_or(false),
         rule: format!(
-            "metrics on. E-seq: every settled history of depth {} over 13 symbols (I(k), I(1,2), I(2,1s), P(1), R(1), G(1), G(3), M(2), A(1.5s), X, U(1)) at max_cost 2 and 100, conservation laws evaluated at EVERY quiescent point; unsettled histories over {{I(1), I(2), I(3), I(1), G(1), S}} with insert buffer 1 and 2 (forces sets_dropped); E-conc: two clients x bodies of <= {} operations from {{G(1), I(1), I(3), R(1)}} x 2 pre-states with the metric stripes as scheduling points, preemption bound 2; non-trivial = keys_added > 0 or hits > 0",
+            "metrics on. E-seq: every settled history of depth {} over 13 symbols (I(k), I(1,2), I(2,1s), P(1), R(1), G(1), G(3), M(2), A(1.5s), X, U(1)) at max_cost 2 and 100, conservation laws evaluated at EVERY quiescent point; unsettled histories over {{I(1), I(2), I(3), I(1), G(1), S}} with insert buffer 1 and 2 (forces sets_dropped); E-conc: two clients x bodies of <= {} operations from {{G(1), I(1), I(3), R(1)}} x 2 pre-states with the metric stripes as scheduling points, preemption bound 2; the same bodies against a client doing X / X;I(3) / I(3);X at bound 2; one settled history (hit, miss, update, TTL expiry, remove, clear, fresh start) per metrics stripe (keys 25..49); non-trivial = keys_added > 0 or hits > 0",
             if quick { 3 } else { 4 },
             if quick { 1 } else { 2 }
         ),
+        assumptions: all_std(),
+    }
+}
+
+// ------------------------------------------------------------------------------------------------
+// C07 (cache part): the policy's decisions are carried out
+
+/// Every sampling round observed in the policy (cfg-guarded observer) either evicts its minimum
+/// (newcomer at least as popular) or rejects the newcomer; at the cache level every evicted
+/// candidate leaves through on_evict and is not resident afterwards, and nothing else is evicted.
+/// Histories without TTL, clear or close, so the contest is the only source of on_evict.
+fn o_c07_cache(p: &Program, t: &Trace) -> Vec<Finding> {
+    let mut out = Vec::new();
+    let plain = p.threads.iter().chain(std::iter::once(&p.setup)).flatten().all(|o| !matches!(o, Op::Clear | Op::Close | Op::Adv { .. } | Op::AdvNs { .. } | Op::MaxCost { .. }) && !matches!(o, Op::Ins { ttl_ms, .. } if *ttl_ms > 0));
+    if plain {
+        let mut decided: BTreeMap<u64, usize> = BTreeMap::new();
+        for r in &t.evict_rounds {
+            if r.min_hits > r.inc_hits {
+                continue;
+            }
+            if !r.sample.iter().any(|(k, _)| *k == r.min_key) {
+                continue;
+            }
+            *decided.entry(r.min_key).or_default() += 1;
+            // the victim is the least popular of the sample is checked on the component (C07 part 1)
+        }
+        let mut carried: BTreeMap<u64, usize> = BTreeMap::new();
+        for e in t.ledger.iter().filter(|e| e.kind == CbKind::Evict) {
+            *carried.entry(e.index).or_default() += 1;
+        }
+        for (k, n) in &decided {
+            // (a remove() of the key may have taken the value out of the store before the policy
+            // got to evict its charge: then there is nothing left to hand to on_evict)
+            let removed_by_client = p.threads.iter().flatten().any(|o| matches!(o, Op::Rem { k: rk } if p.cfg.build_key(*rk).0 == *k));
+            if carried.get(k).copied().unwrap_or(0) < 1 && !removed_by_client {
+                out.push(("eviction-not-carried-out".to_string(), format!("the policy evicted key {} ({} round(s)) but no value of that key was handed to on_evict", k, n)));
+            }
+        }
+        for (k, n) in &carried {
+            if !decided.contains_key(k) {
+                out.push(("eviction-without-contest".to_string(), format!("{} value(s) of key {} were handed to on_evict although no sampling round chose it", n, k)));
+            }
+        }
+    }
+    out.extend(o_agree(p, t));
+    out.extend(o_policy(p, t));
+    out
+}
+
+pub fn c07_cache(tier: &str, flavor: Flavor) -> Spec {
+    let quick = tier == "quick";
+    let mut jobs = popular_jobs(flavor, false, quick, "c07-popular");
+    // settled variants of the same histories: every admission is decided on a quiescent cache
+    let extra: Vec<Job> = jobs
+        .iter()
+        .filter(|j| j.program.threads.len() == 1)
+        .map(|j| {
+            let mut p = j.program.clone();
+            p.threads[0] = settled(&p.threads[0].iter().copied().filter(|o| *o != Op::Settle).collect::<Vec<_>>());
+            job(p, &[0], "c07-popular-settled")
+        })
+        .collect();
+    jobs.extend(extra);
+    Spec {
+        id: "C07",
+        jobs,
+        oracle: o_c07_cache,
+        interesting: |_, t| !t.evict_rounds.is_empty(),
+        rule: "cache level: warm pre-states with skewed popularity (buffer_items 1: every lookup reaches the estimator), capacity 10, every history of depth 3 (quick) / 4 over {I(3,10), I(3,6), I(5,4), I(1,5), R(1), G(1), G(3), S} unsettled and settled, select/scheduling choices at preemption bound 0; every sampling round the policy ran is observed and its outcome must be carried out by the cache: evicted candidates leave through on_evict and are not resident at the next quiescent point, nothing else is evicted, store and policy agree; non-trivial = a sampling round ran".into(),
         assumptions: all_std(),
     }
 }
@@ -1324,6 +1426,38 @@ fn o_c18(p: &Program, t: &Trace) -> Vec<Finding> {
     v.extend(o_lookup(p, t));
     // an operation on one key must not un-charge (or charge) the other: C06 on colliding keys
     v.extend(o_agree(p, t));
+    v
+}
+
+/// One settled history per metrics stripe (the counters are striped by key hash % 25): a hit, a
+/// miss, an update, a remove, a clear and a fresh start on keys of that stripe.
+fn stripe_jobs(flavor: Flavor, tag: &str) -> Vec<Job> {
+    let cfg = Cfg { metrics: true, buffer_items: 1, ..Cfg::default() };
+    (0..25u64)
+        .map(|r| {
+            let (a, b) = (r + 25, r + 50);
+            let ops = vec![ins(a, 1, 0), Op::Get { k: a }, Op::Get { k: b }, ins(a, 2, 0), ins(b, 1, 1000), Op::Rem { k: a }, Op::Adv { ms: 1500 }, Op::Adv { ms: 1500 }, Op::Clear, Op::Get { k: a }, ins(a, 1, 0), Op::Get { k: a }];
+            job(single(&cfg, flavor, settled(&ops)), &[0], tag)
+        })
+        .collect()
+}
+
+/// Histories on two keys sharing an index (2 and 4 under `KeyMode::Collide {m: 2}`) with TTLs and
+/// clock advances that leave expired-but-unswept entries behind.
+fn expiring_collide_histories(quick: bool) -> Vec<Vec<Op>> {
+    let ea = [ins(2, 1, 500), ins(4, 1, 0), ins(4, 1, 500), ins(2, 1, 0), Op::Adv { ms: 600 }, Op::Adv { ms: 1000 }, Op::Get { k: 2 }, Op::Get { k: 4 }, Op::Mut { k: 2 }, Op::Ttl { k: 2 }, Op::Rem { k: 2 }];
+    let mut v = Vec::new();
+    for s in sequences(&ea, if quick { 4 } else { 5 }) {
+        if !s.iter().any(|o| matches!(o, Op::Adv { .. })) || !s.iter().any(|o| matches!(o, Op::Ins { ttl_ms, .. } if *ttl_ms > 0)) {
+            continue;
+        }
+        let mut ops = s.clone();
+        ops.push(Op::Get { k: 2 });
+        ops.push(Op::Get { k: 4 });
+        ops.push(Op::Ttl { k: 2 });
+        ops.push(Op::Ttl { k: 4 });
+        v.push(ops);
+    }
     v
 }
 
@@ -1361,19 +1495,8 @@ pub fn c18(tier: &str, flavor: Flavor) -> Spec {
     }
     // the colliding pair with expiring entries: an entry whose TTL has run out but which has not
     // been swept yet still owns its slot and its conflict hash
-    {
-        let ea = [ins(2, 1, 500), ins(4, 1, 0), ins(4, 1, 500), ins(2, 1, 0), Op::Adv { ms: 600 }, Op::Adv { ms: 1000 }, Op::Get { k: 2 }, Op::Get { k: 4 }, Op::Mut { k: 2 }, Op::Ttl { k: 2 }, Op::Rem { k: 2 }];
-        for s in sequences(&ea, if quick { 4 } else { 5 }) {
-            if !s.iter().any(|o| matches!(o, Op::Adv { .. })) || !s.iter().any(|o| matches!(o, Op::Ins { ttl_ms, .. } if *ttl_ms > 0)) {
-                continue;
-            }
-            let mut ops = s.clone();
-            ops.push(Op::Get { k: 2 });
-            ops.push(Op::Get { k: 4 });
-            ops.push(Op::Ttl { k: 2 });
-            ops.push(Op::Ttl { k: 4 });
-            jobs.push(job(single(&cfg, flavor, settled(&ops)), &[0], "c18-expiring"));
-        }
+    for ops in expiring_collide_histories(quick) {
+        jobs.push(job(single(&cfg, flavor, settled(&ops)), &[0], "c18-expiring"));
     }
     Spec {
         id: "C18",
@@ -1694,7 +1817,7 @@ pub fn c15(tier: &str, flavor: Flavor) -> Spec {
                 // the policy worker lags behind: its bounded queue may fill
                 let mut p = single(&cfg, flavor, s.clone());
                 p.setup = vec![ins(1, 1, 0)];
-                jobs.push(job(p, &[1], "c15-lagging"));
+                jobs.push(job(p, &[2], "c15-lagging"));
             }
         }
         // long bursts: more than 3 undelivered batches
@@ -1702,7 +1825,7 @@ pub fn c15(tier: &str, flavor: Flavor) -> Spec {
             let s: Vec<Op> = (0..l).map(|i| if i % 2 == 0 { Op::Get { k: 1 } } else { Op::Get { k: 2 } }).collect();
             let mut p = single(&cfg, flavor, s);
             p.setup = vec![ins(1, 1, 0)];
-            jobs.push(job(p, &[1], "c15-burst"));
+            jobs.push(job(p, &[2], "c15-burst"));
         }
     }
     // two clients sharing the ring
@@ -1718,7 +1841,7 @@ pub fn c15(tier: &str, flavor: Flavor) -> Spec {
         oracle: o_c15,
         interesting: |_, t| t.snaps.last().and_then(|s| s.metrics.as_ref()).map(|m| m.gets_kept > 0).unwrap_or(false),
         rule: format!(
-            "buffer_items in 0..=3, num_counters 1000, metrics on, key 1 resident / key 2 absent: every lookup sequence of length {} over {{G(1), G(2), M(1)}} (a) with a settle after every lookup, bound 0 and (b) unsettled with the policy worker as a scheduled task at preemption bound 1; bursts of 4*b+1 and 6*b lookups (overflow of the 3-batch queue); two clients x <= 2 lookups sharing the ring at bound 2. Oracle at the final quiescent point: gets_kept + gets_dropped == lookups flushed in whole batches, drops only beyond 3 undelivered batches and never with prompt draining, estimate(k) >= min(16, lookups of k in kept batches); non-trivial = a batch was kept",
+            "buffer_items in 0..=3, num_counters 1000, metrics on, key 1 resident / key 2 absent: every lookup sequence of length {} over {{G(1), G(2), M(1)}} (a) with a settle after every lookup, bound 0 and (b) unsettled with the policy worker as a scheduled task at preemption bound 2 (the worker is interrupted between taking a batch and applying it); bursts of 4*b+1 and 6*b lookups (overflow of the 3-batch queue) at bound 2; two clients x <= 2 lookups sharing the ring at bound 2. Oracle at the final quiescent point: gets_kept + gets_dropped == lookups flushed in whole batches, drops only beyond 3 undelivered batches and never with prompt draining, estimate(k) >= min(16, lookups of k in kept batches); non-trivial = a batch was kept",
             lens[0]
         ),
         assumptions: all_std(),
